@@ -229,4 +229,214 @@ def limbLoop (nR resCols resCol nA aCols aCol lo hi : Nat) : List Acc :=
   (List.range' lo (hi - lo)).flatMap (fun j =>
     [wt 0 (nR * (j * resCols + resCol)) nR, rd 1 (nA * (j * aCols + aCol)) nR])
 
+/-! ### the `span = n >> 2` loop pattern of znx_avx/*.rs and fft64/reim/*.rs
+
+Every element-wise AVX kernel takes `n` from ONE slice, runs `span = n >> 2` iterations of 4-lane loads / stores on every
+operand and then either a scalar tail on `[span << 2, n)` (znx_avx) or, when `n % 4 ≠ 0`, hands the whole call to the
+reference kernel (reim) — the same element set. `ops` = the operands as (buffer id, written?) -/
+
+def simdOperand (b : Nat) (wr : Bool) (n : Nat) : List Acc :=
+  (List.range (n >>> 2)).map (fun i => ⟨b, 4 * i, 4 * i + 4, wr⟩) ++
+  (if n % 4 ≠ 0 then [⟨b, (n >>> 2) <<< 2, n, wr⟩] else [])
+
+def simdKernel (ops : List (Nat × Bool)) (n : Nat) : List Acc := ops.flatMap (fun o => simdOperand o.1 o.2 n)
+
+/-- operand roles of the kernels of poulpy-cpu-avx/src/znx_avx/{add,sub,neg,mul,normalization}.rs and
+fft64/reim/{fft_vec_avx2_fma,conversion}.rs (buffer 0 = first slice argument, 1 = second, 2 = third) -/
+def avxElementwiseKernels : List (String × List (Nat × Bool)) :=
+  [("znx_add_avx", [(0, true), (1, false), (2, false)]), ("znx_add_assign_avx", [(0, true), (0, false), (1, false)]),
+   ("znx_sub_avx", [(0, true), (1, false), (2, false)]), ("znx_sub_assign_avx", [(0, true), (0, false), (1, false)]),
+   ("znx_sub_negate_assign_avx", [(0, true), (0, false), (1, false)]),
+   ("znx_negate_avx", [(0, true), (1, false)]), ("znx_negate_assign_avx", [(0, true), (0, false)]),
+   ("znx_mul_power_of_two_avx", [(0, true), (1, false)]), ("znx_mul_power_of_two_assign_avx", [(0, true), (0, false)]),
+   ("znx_mul_add_power_of_two_avx", [(0, true), (0, false), (1, false)]),
+   ("znx_extract_digit_addmul_avx", [(0, true), (0, false), (1, true), (1, false)]),
+   ("znx_normalize_digit_avx", [(0, true), (0, false), (1, true), (1, false)]),
+   ("znx_normalize_first_step_carry_only_avx", [(0, false), (1, true)]),
+   ("znx_normalize_first_step_assign_avx", [(0, true), (0, false), (1, true)]),
+   ("znx_normalize_first_step_avx", [(0, true), (0, false), (1, false), (2, true)]),
+   ("znx_normalize_middle_step_assign_avx", [(0, true), (0, false), (1, true), (1, false)]),
+   ("znx_normalize_middle_step_carry_only_avx", [(0, false), (1, true), (1, false)]),
+   ("znx_normalize_middle_step_avx", [(0, true), (0, false), (1, false), (2, true), (2, false)]),
+   ("znx_normalize_middle_step_sub_avx", [(0, true), (0, false), (1, false), (2, true), (2, false)]),
+   ("znx_normalize_final_step_assign_avx", [(0, true), (0, false), (1, false)]),
+   ("znx_normalize_final_step_avx", [(0, true), (0, false), (1, false), (2, false)]),
+   ("znx_normalize_final_step_sub_avx", [(0, true), (0, false), (1, false), (2, false)]),
+   ("reim_add_avx2_fma", [(0, true), (1, false), (2, false)]), ("reim_add_assign_avx2_fma", [(0, true), (0, false), (1, false)]),
+   ("reim_sub_avx2_fma", [(0, true), (1, false), (2, false)]), ("reim_sub_assign_avx2_fma", [(0, true), (0, false), (1, false)]),
+   ("reim_sub_negate_assign_avx2_fma", [(0, true), (0, false), (1, false)]),
+   ("reim_negate_avx2_fma", [(0, true), (1, false)]), ("reim_negate_assign_avx2_fma", [(0, true), (0, false)]),
+   ("reim_from_znx_i64_bnd50_fma", [(0, true), (1, false)]), ("reim_from_znx_i64_masked_bnd50_fma", [(0, true), (1, false)]),
+   ("reim_to_znx_i64_bnd63_avx2_fma", [(0, true), (1, false)]), ("reim_to_znx_i64_assign_bnd63_avx2_fma", [(0, true), (0, false)]),
+   ("reim_to_znx_i64_avx2_bnd50_fma", [(0, true), (1, false)])]
+
+/-- `znx_automorphism_avx(p, res, a)` for `n ≥ 4` a power of two: `span` iterations, each a 4-lane gather of
+`a[(t + l·inv) & (2n−1) & (n−1)]` (`inv = p⁻¹ mod 2n`, `t = 4i·inv`) and a 4-lane store to `res[4i..4i+4)` -/
+def automorphismFoot (n inv : Nat) : List Acc :=
+  (List.range (n >>> 2)).flatMap (fun i =>
+    (List.range 4).map (fun l => rd 1 (((4 * i + l) * inv) % (2 * n) % n) 1) ++ [wt 0 (4 * i) 4])
+
+/-- `znx_switch_ring_avx(res, a)`, `n_in > n_out ≥ 4` (down-sampling gather, stride `gap = n_in / n_out`) -/
+def switchRingDown (nIn nOut : Nat) : List Acc :=
+  (List.range (nOut >>> 2)).flatMap (fun i =>
+    (List.range 4).map (fun l => rd 1 ((4 * i + l) * (nIn / nOut)) 1) ++ [wt 0 (4 * i) 4])
+
+/-- `n_out > n_in ≥ 4` (up-sampling: 4-lane load of `a[i..i+4)`, four scalar stores `res[(i+l)·gap]`) -/
+def switchRingUp (nIn nOut : Nat) : List Acc :=
+  (List.range (nIn >>> 2)).flatMap (fun i =>
+    rd 1 (4 * i) 4 :: (List.range 4).map (fun l => wt 0 ((4 * i + l) * (nOut / nIn)) 1))
+
+/-! ### NTT120 vmp (poulpy-cpu-ref/src/reference/ntt120/vmp.rs, AVX kernels in poulpy-cpu-avx/src/ntt120/mat_vec_avx.rs)
+
+Same block-interleaved scheme as FFT64 in other units: a limb of a `VecZnxDft` is `4n` u64, a block is one q120x2b
+element = 8 u64 at `8·blk` (`n/2` blocks); the prepared matrix is addressed in u32 (q120c: 16 u32 per column and row,
+32 per stored pair), block stride `16·nrows·ncols` u32.  Buffers: 0 = `res` (u64), 1 = `a` (u64), 2 = `pmat` (u32),
+3 = `tmp` (u64: `mat2cols_output = tmp[..16]`, `extracted_blk = tmp[16..]`, read by the kernels as `2×` as many u32) -/
+
+def nttPmatOff (nrows ncols row col : Nat) : Nat :=
+  if col = ncols - 1 ∧ ncols % 2 = 1 then col * nrows * 16 + row * 16
+  else (col / 2) * (nrows * 32) + row * 32 + (col % 2) * 16
+
+/-- `ntt120_vmp_prepare`: per (row, col) the `n/2` blocks of 16 u32 scattered into the matrix (checked slices) -/
+def nttVmpPrepare (n nrows ncols : Nat) : List Acc :=
+  (List.range nrows).flatMap (fun row => (List.range ncols).flatMap (fun col =>
+    rd 1 (n * (row * ncols + col)) n ::
+    (List.range (n / 2)).map (fun blk => wt 0 (nttPmatOff nrows ncols row col + blk * (nrows * ncols * 16)) 16)))
+
+/-- `extract_1blk_from_contiguous_q120b`: row `r` of `a` contributes `a[4n·r + 8·blk ..+8)` -/
+def nttExtract (n rowMax blk : Nat) : List Acc :=
+  (List.range rowMax).flatMap (fun r => [rd 1 (4 * n * r + 8 * blk) 8, wt 3 (16 + 8 * r) 8])
+
+/-- `vec_mat2cols_product_x2_bbc`: `ell` rows, 8 u64 (16 u32) of the extracted block and 32 u32 of the matrix per row, 16 u64 out -/
+def nttMat2cols (ell vOff : Nat) : List Acc :=
+  (List.range ell).flatMap (fun i => [rd 3 (16 + 8 * i) 8, rd 2 (vOff + 32 * i) 32]) ++ [wt 3 0 16]
+/-- `vec_mat1col_product_x2_bbc`: 16 u32 of the matrix per row, 8 u64 out -/
+def nttMat1col (ell vOff : Nat) : List Acc :=
+  (List.range ell).flatMap (fun i => [rd 3 (16 + 8 * i) 8, rd 2 (vOff + 16 * i) 16]) ++ [wt 3 0 8]
+
+/-- `save_blk_overwrite(n, blk, &mut res[base..], &out[o..o+8])` -/
+def nttSave (blk base o : Nat) : List Acc := [rd 3 o 8, wt 0 (base + 8 * blk) 8]
+
+/-- `vmp_apply_dft_to_dft_core::<true>` of the NTT120 back ends -/
+def nttVmpApply (n resSize aSize nrows ncols lo : Nat) : List Acc :=
+  let rowMax := min nrows aSize
+  let colMax := min ncols (resSize + lo)
+  if lo ≥ colMax then [wt 0 0 (4 * n * resSize)]
+  else
+    ((List.range (n / 2)).flatMap (fun blk =>
+      let mb := blk * (nrows * ncols * 16)
+      nttExtract n rowMax blk ++
+      (if lo % 2 = 0 then
+        (pairCols lo colMax).flatMap (fun c =>
+          nttMat2cols rowMax (mb + c * (nrows * 16)) ++ nttSave blk ((c - lo) * (4 * n)) 0 ++ nttSave blk ((c - lo + 1) * (4 * n)) 8)
+       else
+        nttMat2cols rowMax (mb + (lo - 1) * (nrows * 16)) ++ nttSave blk 0 8 ++
+        (pairCols (lo + 1) colMax).flatMap (fun c =>
+          nttMat2cols rowMax (mb + c * (nrows * 16)) ++ nttSave blk ((c - lo) * (4 * n)) 0 ++ nttSave blk ((c - lo + 1) * (4 * n)) 8)) ++
+      (if colMax % 2 = 1 ∧ colMax - 1 ≥ lo then
+        (if ncols = colMax then nttMat1col rowMax (mb + (colMax - 1) * (nrows * 16))
+         else nttMat2cols rowMax (mb + (colMax - 1) * (nrows * 16))) ++
+        nttSave blk ((colMax - 1 - lo) * (4 * n)) 0
+       else []))) ++
+    (List.range' (colMax - lo) (resSize - (colMax - lo))).map (fun col => wt 0 (col * (4 * n)) (4 * n))
+
+/-! ### NTT120 `vec_znx_dft_apply` / `idft_apply` / `idft_apply_tmpa` (poulpy-cpu-ref/src/reference/ntt120/vec_znx_dft.rs)
+
+Limb `(col, j)` of a `VecZnxDft` = u64 `[4·nR·(j·cols+col), +4·nR)`; limb `(col, l)` of a `VecZnx` = i64
+`[nA·(l·cols+col), +nA)`; limb of a `VecZnxBig` = i128 `[n·(j·cols+col), +n)`.  `ntt_from_znx64` walks `a.len()` coefficients
+(`4·a.len()` u64 of the result); the (inverse) NTT walks `4·tn` u64 of the slice it is handed, `tn` = ring degree of the
+MODULE's table — independent of the slice. -/
+
+/-- buffers: 0 = `res` (u64), 1 = `a` (i64) -/
+def nttDftApply (nR nA tn step offset resCols resCol resSize aCols aCol aSize : Nat) : List Acc :=
+  let minSteps := min resSize ((aSize + step - 1) / step)
+  (List.range minSteps).flatMap (fun j =>
+    if offset + j * step < aSize then
+      [rd 1 (nA * ((offset + j * step) * aCols + aCol)) nA, wt 0 (4 * nR * (j * resCols + resCol)) (4 * nA),
+       wt 0 (4 * nR * (j * resCols + resCol)) (4 * tn)]
+    else [wt 0 (4 * nR * (j * resCols + resCol)) (4 * nR)]) ++
+  (List.range' minSteps (resSize - minSteps)).map (fun j => wt 0 (4 * nR * (j * resCols + resCol)) (4 * nR))
+
+/-- `ntt120_vec_znx_idft_apply_tmp_bytes(n)` -/
+def nttIdftTmpBytes (n : Nat) : Nat := 4 * n * 8
+
+/-- buffers: 0 = `res` (i128), 1 = `a` (u64), 3 = `tmp` (u64; `&mut tmp[..4n]` is a checked slice, `ntt_copy` is
+`copy_from_slice`: a limb of another length panics) -/
+def nttIdftApply (n tn resCols resCol resSize aCols aCol aSize : Nat) : List Acc :=
+  (List.range (min resSize aSize)).flatMap (fun j =>
+    [rd 1 (4 * n * (j * aCols + aCol)) (4 * n), wt 3 0 (4 * n), wt 3 0 (4 * tn), rd 3 0 (4 * n),
+     wt 0 (n * (j * resCols + resCol)) n]) ++
+  (List.range' (min resSize aSize) (resSize - min resSize aSize)).map (fun j => wt 0 (n * (j * resCols + resCol)) n)
+
+/-- the destructive variant: the inverse NTT runs in place on the limb of `a` -/
+def nttIdftApplyTmpA (n tn resCols resCol resSize aCols aCol aSize : Nat) : List Acc :=
+  (List.range (min resSize aSize)).flatMap (fun j =>
+    [wt 1 (4 * n * (j * aCols + aCol)) (4 * tn), rd 1 (4 * n * (j * aCols + aCol)) (4 * n),
+     wt 0 (n * (j * resCols + resCol)) n]) ++
+  (List.range' (min resSize aSize) (resSize - min resSize aSize)).map (fun j => wt 0 (n * (j * resCols + resCol)) n)
+
+/-! ### NTT120 convolution: `pack_left/right_1blk_x2`, the pairwise packs, `ntt120_cnv(_pairwise)_apply_dft`
+(poulpy-cpu-ref/src/reference/ntt120/convolution.rs, AVX kernels poulpy-cpu-avx/src/ntt120/arithmetic_avx.rs)
+
+Buffers: 0 = `res` (u64), 1 = `a` = CnvPVecL (u64, limb stride `4n·a_cols`), 2 = `b` = CnvPVecR (u32, limb stride
+`8n·b_cols`), 3 = `tmp` (u32: `a_tmp = [0, 16·a_size)`, `b_tmp = [16·a_size, …)`).  A row of a pack = 2 × 256 bit. -/
+
+def nttPackLeft (n aCols aCol aSize blk : Nat) : List Acc :=
+  (List.range aSize).flatMap (fun row => [rd 1 (4 * n * aCol + row * (4 * n * aCols) + 8 * blk) 8, wt 3 (16 * row) 16])
+
+/-- reversed row order: the pointer starts at row `b_size − 1` and walks down -/
+def nttPackRight (n bCols bCol aSize bSize blk : Nat) : List Acc :=
+  (List.range bSize).flatMap (fun row =>
+    [rd 2 (8 * n * bCol + (bSize - 1 - row) * (8 * n * bCols) + 16 * blk) 16, wt 3 (16 * aSize + 16 * row) 16])
+
+/-- `vec_mat1col_product_x2_bbc` on windows of `a_tmp` / `b_tmp`, 8 u64 out -/
+def nttBbcWin (ell xOff yOff d : Nat) : List Acc :=
+  (List.range ell).flatMap (fun i => [rd 3 (xOff + 16 * i) 16, rd 3 (yOff + 16 * i) 16]) ++ [wt 0 d 8]
+
+/-- `ca`, `cb` = the columns packed: `[a_col]`, `[b_col]` for `ntt120_cnv_apply_dft`; `[col_i, col_j]` twice for the
+pairwise variant (the pairwise packs read both columns and write their sum to the same rows) -/
+def nttCnvApply (n resSize resCols resCol aSize aCols bSize bCols cnvOffset : Nat) (ca cb : List Nat) : List Acc :=
+  if resSize = 0 ∨ aSize = 0 ∨ bSize = 0 then (List.range resSize).map (fun j => wt 0 (4 * n * (j * resCols + resCol)) (4 * n))
+  else
+    let bound := aSize + bSize - 1
+    let offset := min cnvOffset bound
+    let minSize := min resSize (bound + 1 - offset)
+    (List.range (n / 2)).flatMap (fun blk =>
+      ca.flatMap (fun c => nttPackLeft n aCols c aSize blk) ++ cb.flatMap (fun c => nttPackRight n bCols c aSize bSize blk) ++
+      (List.range minSize).flatMap (fun k =>
+        let jMin := k + offset - (aSize - 1)
+        let jMax := min (k + offset + 1) bSize
+        nttBbcWin (jMax - jMin) (16 * (k + offset + 1 - jMax)) (16 * aSize + 16 * (bSize - jMax))
+          (4 * n * (k * resCols + resCol) + 8 * blk))) ++
+    (List.range' minSize (resSize - minSize)).map (fun j => wt 0 (4 * n * (j * resCols + resCol)) (4 * n))
+
+/-! ### the bbc product kernels on their own slices (poulpy-cpu-avx/src/ntt120/mat_vec_avx.rs): `ell` iterations reading
+`wx` u32 of `x` (buffer 1) and `wy` u32 of `y` (buffer 2) through raw pointers, then `wr` u64 stored to `res` (buffer 0):
+`vec_mat1col_product_bbc` (8, 8, 4), `…_x2_bbc` (16, 16, 8), `vec_mat2cols_product_x2_bbc` (16, 32, 16) -/
+def bbcKernel (wx wy wr ell : Nat) : List Acc :=
+  (List.range ell).flatMap (fun i => [rd 1 (wx * i) wx, rd 2 (wy * i) wy]) ++ [wt 0 0 wr]
+
+/-! ### NTT120 `VecZnxBig` i128 kernels (poulpy-cpu-avx/src/ntt120/vec_znx_big_avx.rs): the `chunks = n / 4` + checked tail
+pattern; per iteration an i128 operand is two 256-bit vectors (elements `4i, 4i+1` and `4i+2, 4i+3`), an i64 operand one -/
+def avxI128Kernels : List (String × List (Nat × Bool)) :=
+  [("vi128_add_avx2", [(0, true), (1, false), (2, false)]), ("vi128_add_assign_avx2", [(0, true), (0, false), (1, false)]),
+   ("vi128_add_small_avx2", [(0, true), (1, false), (2, false)]), ("vi128_add_small_assign_avx2", [(0, true), (0, false), (1, false)]),
+   ("vi128_sub_avx2", [(0, true), (1, false), (2, false)]), ("vi128_sub_assign_avx2", [(0, true), (0, false), (1, false)]),
+   ("vi128_sub_negate_assign_avx2", [(0, true), (0, false), (1, false)]),
+   ("vi128_sub_small_a_avx2", [(0, true), (1, false), (2, false)]), ("vi128_sub_small_b_avx2", [(0, true), (1, false), (2, false)]),
+   ("vi128_sub_small_assign_avx2", [(0, true), (0, false), (1, false)]),
+   ("vi128_sub_small_negate_assign_avx2", [(0, true), (0, false), (1, false)]),
+   ("vi128_negate_avx2", [(0, true), (1, false)]), ("vi128_negate_assign_avx2", [(0, true), (0, false)]),
+   ("vi128_from_small_avx2", [(0, true), (1, false)]), ("vi128_neg_from_small_avx2", [(0, true), (1, false)]),
+   ("nfc_middle_step_avx2", [(0, true), (1, false), (2, true), (2, false)]),
+   ("nfc_middle_step_into_avx2", [(0, true), (0, false), (1, false), (2, true), (2, false)]),
+   ("nfc_middle_step_assign_avx2", [(0, true), (0, false), (1, true), (1, false)]),
+   ("nfc_final_step_assign_avx2", [(0, true), (0, false), (1, false)]),
+   ("nfc_final_step_into_avx2", [(0, true), (0, false), (1, false)])]
+
+/-- the 256-bit loads / stores of main-loop iteration `i` on an operand of `es`-byte elements, as BYTE ranges
+(`es = 8`: f64 / i64 / u64, one vector; `es = 16`: i128, two vectors; `es = 4`: u32 is never walked 4 at a time) -/
+def vec256 (es i : Nat) : List (Nat × Nat) :=
+  (List.range (es / 8)).map (fun t => (32 * (es / 8 * i + t), 32 * (es / 8 * i + t) + 32))
+
 end Kern
